@@ -1,7 +1,7 @@
 (* TrDir.v -- dir_fix and dir_reorder of /repo/dir.c against DirDefs.v, relative to a matcher oracle (TrDirBase.v: the setting,
    oracle_ok / raw_ok, dir_context; TrDirMatch.v: tr_dir_match). *)
 From Coq Require Import List ZArith NArith Bool Lia Permutation.
-From NV Require Import Bytes UcDefs GenConf GenConsts DirDefs DirProps IoDefs IoProps CLite CLiteProps GenCFuncs CLiteTac CLiteExt TrUc TrRen TrSbuf TrDirBase TrDirMatch.
+From NV Require Import Bytes UcDefs GenConf GenConsts DirDefs DirProps IoDefs IoProps CLite CLiteProps GenCFuncs CLiteTac CLiteExt TrUc TrRen TrSbuf TrRen2 TrRenPos TrDirBase TrDirMatch.
 Import ListNotations.
 Local Open Scope Z_scope.
 
@@ -343,3 +343,207 @@ Qed.
    load and store was inside its block *)
 Theorem tr_dir_fix ext FUEL f : fix_call_spec ext FUEL f.
 Proof. apply fix_call_of_loop, fix_loop_all. Qed.
+
+(* ------------------------------------------------------------------ dir_context, both paths in one statement *)
+(* the oracle's answer to rset_find(dir_rsctx, s, 0, NULL, 0): the index ctxfound, no block that existed changes *)
+Definition ctx_oracle_ok (ext : nat -> list val -> mem -> res (val * mem)) (rsctx : val) (sb : nat) (s : bytes) (cf : Z) : Prop :=
+  int_ok cf /\ (is_null rsctx = true -> cf = -1) /\
+  (is_null rsctx = false -> forall (m : mem), str_at m sb s ->
+     exists m2, ext X_rset_find [rsctx; VPtr sb 0; VInt 0; VInt 0; VInt 0] m = Ok (VInt cf, m2) /\ mem_ext m m2 []).
+
+Theorem tr_dir_context ext (m : mem) sb s xtd rsctx cf d fuel : ctx_world m sb s xtd rsctx -> ctx_oracle_ok ext rsctx sb s cf ->
+  exists m', callx ext cprog fuel (S (S d)) F_dir_context [VPtr sb 0] m = Ok (VInt (dir_context s xtd cf), m') /\ mem_ext m m' [].
+Proof.
+  intros CW (Icf & Hnull & Hor). destruct (ctx_fast s xtd) eqn:Ef.
+  - exists (m ++ [[VUndef]]). split; [apply (tr_dir_context_fast ext m sb s xtd rsctx cf (S d) fuel CW Ef)|apply mem_ext_app].
+  - destruct (is_null rsctx) eqn:En.
+    + apply (tr_dir_context_slow ext m sb s xtd rsctx cf m d fuel CW Ef); [intros _; apply Hnull; reflexivity|rewrite En; discriminate].
+    + assert (Hs1 : str_at (m ++ [[VUndef]]) sb s).
+      { destruct CW as [Hs _ _ _ _ _ _]. unfold str_at in *. rewrite nth_error_app_old; [exact Hs|]. apply nth_error_Some. congruence. }
+      destruct (Hor eq_refl _ Hs1) as [m2 [E2 X2]].
+      apply (tr_dir_context_slow ext m sb s xtd rsctx cf m2 d fuel CW Ef); [rewrite En; discriminate|]. intros _. auto.
+Qed.
+
+(* ------------------------------------------------------------------ uc_chop gives a chrs array as dir_match wants it *)
+Lemma chop_f_length k : forall t base, length (uc_chop_f k t base) = k.
+Proof. induction k as [|k IH]; intros t base; [reflexivity|]. cbn [uc_chop_f length]. rewrite IH. reflexivity. Qed.
+Lemma chop_f_bounds k : forall t base i, (i < k)%nat -> (base <= nth i (uc_chop_f k t base) 0 <= base + length t)%nat.
+Proof.
+  induction k as [|k IH]; intros t base i Hi; [lia|]. cbn [uc_chop_f]. destruct i as [|i]; [cbn [nth]; lia|]. cbn [nth].
+  pose proof (uc_next_le t). specialize (IH (skipn (uc_next t) t) (base + uc_next t)%nat i ltac:(lia)). rewrite skipn_length in IH. lia.
+Qed.
+Lemma chop_f_mono k : forall t base i j, (i <= j < k)%nat -> (nth i (uc_chop_f k t base) 0 <= nth j (uc_chop_f k t base) 0)%nat.
+Proof.
+  induction k as [|k IH]; intros t base i j Hij; [lia|]. cbn [uc_chop_f]. destruct j as [|j].
+  - assert (i = 0)%nat as -> by lia. lia.
+  - destruct i as [|i]; cbn [nth].
+    + pose proof (chop_f_bounds k (skipn (uc_next t) t) (base + uc_next t)%nat j ltac:(lia)). lia.
+    + apply IH. lia.
+Qed.
+Lemma uc_chop_ok s : chrs_ok s (uc_chop s) /\ length (uc_chop s) = S (uc_slen s).
+Proof.
+  unfold uc_chop. split; [split|apply chop_f_length].
+  - intros i j Hij. rewrite chop_f_length in Hij. apply chop_f_mono. exact Hij.
+  - intros i Hi. rewrite chop_f_length in Hi. pose proof (chop_f_bounds _ s 0%nat i Hi). lia.
+Qed.
+Lemma dirdefs_upd {A} (l : list A) i v : (i < length l)%nat -> DirDefs.upd l i v = CLiteProps.upd l i v.
+Proof.
+  revert i; induction l as [|x l IH]; intros i H; cbn [length] in H; [lia|]. destruct i as [|i]; [reflexivity|].
+  cbn [DirDefs.upd]. rewrite IH by lia. reflexivity.
+Qed.
+
+(* ------------------------------------------------------------------ dir_reorder *)
+Record reorder_world (m : mem) (sb : nat) (s : bytes) (xtd : Z) (rsctx rslr rsrl : val) : Prop := {
+  rw_s : str_at m sb s;  rw_nn : nonul s;
+  rw_xtd : nth_error m G_xtd = Some [VInt xtd];  rw_xtd_ok : int_ok xtd;
+  rw_ctx : nth_error m G_dir_rsctx = Some [rsctx];  rw_ctx_ok : ptr_val rsctx;
+  rw_ctab : nth_error m G_dircontexts = Some gb_dircontexts;
+  rw_lr : nth_error m G_dir_rslr = Some [rslr];  rw_lr_ok : ptr_val rslr;
+  rw_rl : nth_error m G_dir_rsrl = Some [rsrl];  rw_rl_ok : ptr_val rsrl;
+  rw_tab : nth_error m G_dirmarks = Some gb_dirmarks;
+  rw_size : Z.of_nat (length s) <= 1000000000 }.
+Definition reorder_blocks (sb : nat) : list nat := [sb; G_xtd; G_dir_rsctx; G_dircontexts; G_dir_rslr; G_dir_rsrl; G_dirmarks].
+
+Lemma reorder_world_ext m m' bs sb s xtd rsctx rslr rsrl : reorder_world m sb s xtd rsctx rslr rsrl -> mem_ext m m' bs ->
+  (forall p, In p bs -> ~ In p (reorder_blocks sb)) -> reorder_world m' sb s xtd rsctx rslr rsrl.
+Proof.
+  intros [H1 H2 H3 H4 H5 H6 H7 H8 H9 H10 H11 H12 H13] E D.
+  assert (G : forall x blk, nth_error m x = Some blk -> In x (reorder_blocks sb) -> nth_error m' x = Some blk).
+  { intros x blk Hx Hin. apply (mem_ext_get _ _ _ _ _ E Hx). intro Hb. exact (D x Hb Hin). }
+  constructor; try assumption; [unfold str_at in *| | | | | |]; apply G; try assumption; unfold reorder_blocks; cbn [In]; auto 10.
+Qed.
+Lemma cc_eq10 : forall c, (c < 256)%N -> (wrap I32 (wrap I8 (Z.of_N c)) =? 10) = (c =? 10)%N.
+Proof. byte_fact. Qed.
+
+Definition dr_if : stmt := seq_nth 3 (fn_body cf_dir_reorder).
+
+(* dir_reorder(s, ord), for EVERY oracle that answers both rset_find calls as the model's parameters say (ctxfound for the context
+   patterns, raw for the marks over the spans of uc_chop(s)): the order array ends as DirDefs.dir_reorder says, no other block
+   that existed changes (chrs is allocated by uc_chop and freed again) *)
+Theorem tr_dir_reorder ext FUEL d (m : mem) sb s xtd rsctx rslr rsrl cf raw g ord ord' :
+  reorder_world m sb s xtd rsctx rslr rsrl ->
+  int_arr_at m g (map Z.of_nat ord) -> ints_ok (map Z.of_nat ord) -> ~ In g (reorder_blocks sb) ->
+  (uc_slen s <= length ord)%nat ->
+  ctx_oracle_ok ext rsctx sb s cf -> oracle_ok ext s (uc_chop s) rslr rsrl raw -> raw_ok rslr rsrl raw ->
+  cm_ok (dir_match s (uc_chop s) raw) (uc_slen s) ->
+  (S (S (length s)) < FUEL)%nat ->
+  dir_reorder s xtd cf raw ord = Some ord' ->
+  exists m', callx ext cprog FUEL (S (S (S (S (S (S (S (uc_slen s) + d))))))) F_dir_reorder [VPtr sb 0; VPtr g 0] m = Ok (VUndef, m') /\
+    mem_ext m m' [g] /\ int_arr_at m' g (map Z.of_nat ord').
+Proof.
+  intros RW Ho Hi Hgw Hno Hcor Hor Hraw Hcm HF Hre.
+  pose proof RW as [Hs Hnn Hx Ix Hrc Prc Hct Hlr Plr Hrl Prl Htab Hsize].
+  pose proof (nonul_lt256 s Hnn) as H256.
+  destruct (uc_chop_ok s) as [Hcok Hcl]. pose proof (uc_slen_le s) as Hnle.
+  set (n := uc_slen s) in *. set (chrs := uc_chop s) in *. set (L := length m).
+  assert (Hgl : (g < L)%nat) by (apply nth_error_Some; unfold int_arr_at in Ho; congruence).
+  assert (Wb : forall x, In x (reorder_blocks sb) -> (x < L)%nat).
+  { unfold str_at in Hs. unfold reorder_blocks. intros x Hx'. cbn [In] in Hx'.
+    decompose [or] Hx'; subst; try tauto; apply nth_error_Some; congruence. }
+  set (call := callx ext cprog FUEL (S (S (S (S (S (S n + d))))))).
+  (* int n; chrs = uc_chop(s, &n) *)
+  set (m1 := m ++ [[VUndef]]).
+  assert (Hs1 : str_at m1 sb s) by (unfold str_at, m1 in *; rewrite nth_error_app_old; [exact Hs|apply Wb; left; reflexivity]).
+  assert (Hn1 : nth_error m1 L = Some [VUndef]) by (unfold m1; apply nth_error_app_new).
+  assert (Lm1 : length m1 = S L) by (unfold m1; rewrite app_length; cbn [length]; fold L; lia).
+  pose proof (tr_uc_chop m1 sb s L [VUndef] 0 (S (S (S n + d))) FUEL Hs1 Hnn Hn1 ltac:(cbn [length]; lia)
+                ltac:(specialize (Wb sb (or_introl eq_refl)); lia) ltac:(lia) ltac:(lia)) as Echop.
+  change (Z.to_nat 0) with 0%nat in Echop. change (CLiteProps.upd [VUndef] 0 (VInt (Z.of_nat (uc_slen s)))) with [VInt (Z.of_nat n)] in Echop.
+  rewrite Lm1 in Echop. fold chrs in Echop.
+  set (m2 := CLiteProps.upd m1 L [VInt (Z.of_nat n)] ++ [map (TrRenPos.cptr sb) chrs]) in *.
+  assert (Lm2 : length m2 = S (S L)) by (unfold m2; rewrite app_length, upd_length by lia; cbn [length]; lia).
+  assert (E02 : mem_ext m m2 []).
+  { unfold m2. apply mem_ext_app_r. apply (mem_ext_trans m m1 _ [] [L] []); [apply mem_ext_app|apply mem_ext_upd; left; reflexivity|apply incl_refl|].
+    intros x [<-|[]] Hl. exfalso. fold L in Hl. lia. }
+  assert (Hc2 : nth_error m2 (S L) = Some (map (TrDirBase.cptr sb) chrs)).
+  { unfold m2. apply nth_app_chain. rewrite upd_length by lia. lia. }
+  assert (Hn2 : nth_error m2 L = Some [VInt (Z.of_nat n)]).
+  { unfold m2. rewrite nth_error_app_old by (rewrite upd_length by lia; lia). apply mem_upd_same. lia. }
+  (* dir = dir_context(s) *)
+  assert (RW2 : reorder_world m2 sb s xtd rsctx rslr rsrl) by (apply (reorder_world_ext m m2 [] _ _ _ _ _ _ RW E02); intros ? []).
+  assert (CW2 : ctx_world m2 sb s xtd rsctx) by (destruct RW2; constructor; assumption).
+  destruct (tr_dir_context ext m2 sb s xtd rsctx cf (S (S (S (S n + d)))) FUEL CW2 Hcor) as [m3 [Ectx X23]].
+  set (dir := dir_context s xtd cf) in *.
+  assert (E03 : mem_ext m m3 []) by (apply (mem_ext_trans m m2 m3 [] [] [] E02 X23); [apply incl_refl|intros ? []]).
+  assert (Hc3 : nth_error m3 (S L) = Some (map (TrDirBase.cptr sb) chrs)) by (apply (mem_ext_get _ _ _ _ _ X23 Hc2); intros []).
+  assert (Hn3 : nth_error m3 L = Some [VInt (Z.of_nat n)]) by (apply (mem_ext_get _ _ _ _ _ X23 Hn2); intros []).
+  assert (Ho3 : int_arr_at m3 g (map Z.of_nat ord)) by (apply (mem_ext_get _ _ _ _ _ E03 Ho); intros []).
+  assert (RW3 : reorder_world m3 sb s xtd rsctx rslr rsrl) by (apply (reorder_world_ext m m3 [] _ _ _ _ _ _ RW E03); intros ? []).
+  assert (Lm3 : (S (S L) <= length m3)%nat) by (destruct X23 as [X _]; lia).
+  (* if (n && chrs[n - 1][0] == '\n') { ord[n - 1] = n - 1; n--; } *)
+  set (nl := (0 <? n)%nat && (nthb s (nth (n - 1) chrs 0%nat) =? 10)%N).
+  set (ord1 := if nl then DirDefs.upd ord (n - 1) (n - 1)%nat else ord).
+  set (n1 := if nl then (n - 1)%nat else n).
+  set (loc := [VPtr sb 0; VPtr g 0; VPtr L 0; VPtr (S L) 0; VInt dir]).
+  assert (Aif : exists m5, exec call FUEL dr_if (mkst loc m3) = ONormal (mkst loc m5) /\ mem_ext m3 m5 [g; L] /\
+                  int_arr_at m5 g (map Z.of_nat ord1) /\ nth_error m5 L = Some [VInt (Z.of_nat n1)] /\ length ord1 = length ord /\
+                  ints_ok (map Z.of_nat ord1)).
+  { unfold dr_if, loc. cbn [seq_nth fn_body cf_dir_reorder]. rewrite exec_if. xs.
+    rewrite (ld_cell _ _ _ Hn3). xs. rewrite wrap_I32_id by lia.
+    unfold ord1, n1, nl. destruct (Nat.ltb_spec 0 n) as [Hpos|Hpos]; (destruct (Z.eqb_spec (Z.of_nat n) 0); try lia); xs.
+    - rewrite (ld_cell _ _ _ Hn3). xs. rewrite wrap_I32_id by lia. rewrite chk_I32 by lia. xs.
+      replace (Z.of_nat n - 1) with (Z.of_nat (n - 1)) by lia.
+      rewrite (load_chrs m3 (S L) sb chrs (n - 1) Hc3) by lia. xs.
+      assert (Hs3 : str_at m3 sb s) by (destruct RW3; assumption).
+      destruct Hcok as [_ Hcb]. rewrite (load_str m3 sb s _ (nth (n - 1) chrs 0%nat) Hs3) by (try lia; apply Hcb; lia). xs.
+      rewrite (cc_eq10 _ (nthb_lt256 s _ H256)).
+      destruct (nthb s (nth (n - 1) chrs 0%nat) =? 10)%N; xs.
+      + rewrite (ld_cell _ _ _ Hn3). xs. rewrite wrap_I32_id by lia. rewrite chk_I32 by lia. xs.
+        rewrite (ld_cell _ _ _ Hn3). xs. rewrite wrap_I32_id by lia. rewrite chk_I32 by lia. xs.
+        replace (0 + 1 * (Z.of_nat n - 1)) with (Z.of_nat (n - 1)) by lia. replace (Z.of_nat n - 1) with (Z.of_nat (n - 1)) by lia.
+        rewrite wrap_I32_id by lia.
+        rewrite (store_int_arr m3 g _ _ _ Ho3) by (rewrite map_length; lia). xs. rewrite Nat2Z.id.
+        set (m4 := CLiteProps.upd m3 g _).
+        assert (Hn4 : nth_error m4 L = Some [VInt (Z.of_nat n)]) by (unfold m4; rewrite mem_upd_other by (try lia; destruct X23; lia); exact Hn3).
+        rewrite (ld_cell _ _ _ Hn4). xs. rewrite wrap_I32_id by lia. rewrite chk_I32 by lia. xs. cbn [fst snd].
+        rewrite (st_cell m4 L _ _ Hn4). xs. replace (Z.of_nat n + -1) with (Z.of_nat (n - 1)) by lia.
+        eexists. split; [reflexivity|].
+        assert (Hl4 : length m4 = length m3) by (unfold m4; apply upd_length; destruct X23; lia).
+        split; [|split; [|split; [apply mem_upd_same; lia|]]].
+        * apply (mem_ext_trans m3 m4 _ [g] [L] _); [apply mem_ext_upd; left; reflexivity|apply mem_ext_upd; left; reflexivity| |].
+          -- intros x [<-|[]]. left. reflexivity.
+          -- intros x [<-|[]] _. right. left. reflexivity.
+        * unfold int_arr_at. rewrite mem_upd_other by lia. unfold m4. rewrite mem_upd_same by (destruct X23; lia).
+          rewrite dirdefs_upd by lia. rewrite !map_upd. reflexivity.
+        * rewrite dirdefs_upd by lia. split; [apply upd_length; lia|]. rewrite map_upd. apply ints_ok_upd; [exact Hi|lia].
+      + eexists. split; [reflexivity|]. split; [apply mem_ext_refl|]. auto.
+    - assert (n = 0)%nat by lia. eexists. split; [reflexivity|]. split; [apply mem_ext_refl|]. auto. }
+  destruct Aif as (m5 & Aif & X35 & Ho5 & Hn5 & Lo1 & Io1).
+  assert (E05 : mem_ext m m5 [g]).
+  { apply (mem_ext_trans m m3 m5 [] [g; L] [g] E03 X35); [intros ? []|]. intros x [<-|[<-|[]]] Hl; [left; reflexivity|exfalso; fold L in Hl; lia]. }
+  assert (Hc5 : nth_error m5 (S L) = Some (map (TrDirBase.cptr sb) chrs)).
+  { apply (mem_ext_get _ _ _ _ _ X35 Hc3). intros [X|[X|[]]]; lia. }
+  assert (RW5 : reorder_world m5 sb s xtd rsctx rslr rsrl).
+  { apply (reorder_world_ext m m5 [g] _ _ _ _ _ _ RW E05). intros p [<-|[]]. exact Hgw. }
+  assert (W5 : dir_world m5 sb s (S L) chrs rslr rsrl).
+  { destruct RW5. constructor; try assumption. rewrite Hcl. lia. }
+  (* dir_fix(chrs, ord, dir, 0, n) *)
+  assert (Hn1n : (n1 <= n)%nat) by (unfold n1; destruct nl; lia).
+  unfold dir_reorder in Hre. fold n chrs dir nl ord1 n1 in Hre.
+  assert (Hgw5 : ~ In g (world_blocks sb (S L))).
+  { unfold world_blocks. cbn [In]. intros [X|[X|X]]; [apply Hgw; left; exact X|lia|apply Hgw; unfold reorder_blocks; cbn [In]; tauto]. }
+  assert (Hcm1 : cm_ok (dir_match s chrs raw) n1) by (intros b0 e0 d0 r0 Hb0 He0; apply Hcm; lia).
+  assert (Efix : exists m6, call F_dir_fix [VPtr (S L) 0; VPtr g 0; VInt dir; VInt 0; VInt (Z.of_nat n1)] m5 = Ok (VUndef, m6) /\
+                   mem_ext m5 m6 [g] /\ int_arr_at m6 g (map Z.of_nat ord')).
+  { unfold call. replace (S n + d)%nat with (S n1 + (n - n1 + d))%nat by lia. change (VInt 0) with (VInt (Z.of_nat 0)).
+    apply (tr_dir_fix ext FUEL (S n1) (n - n1 + d)%nat m5 sb s (S L) chrs rslr rsrl raw g ord1 dir 0%nat n1 n1 ord' W5 Hor Hraw Hcm1); try assumption; try lia. }
+  destruct Efix as (m6 & Efix & X56 & Ho6).
+  assert (Hc6 : nth_error m6 (S L) = Some (map (TrDirBase.cptr sb) chrs)).
+  { apply (mem_ext_get _ _ _ _ _ X56 Hc5). intros [X|[]]. lia. }
+  (* the whole body *)
+  rewrite callx_S. change (nth_error cprog F_dir_reorder) with (Some cf_dir_reorder). cbv iota beta.
+  change (fn_nparams cf_dir_reorder) with 2%nat. change (fn_nlocals cf_dir_reorder) with 5%nat. cbn [length Nat.eqb Nat.sub repeat app].
+  fold call. cbn [fn_body cf_dir_reorder].
+  change (SIf (EAndAlso (ELoad (Some I32) (ELocal 2)) _) _ _) with dr_if.
+  xs. rewrite malloc_ok by lia. xs. change (Z.to_nat 1) with 1%nat. cbn [repeat]. fold L. fold m1.
+  unfold call at 1. rewrite (callx_mono ext _ _ _ _ _ _ _ Echop). xs.
+  unfold call at 1. rewrite Ectx. xs. fold loc. rewrite Aif. unfold loc. xs.
+  rewrite (ld_cell _ _ _ Hn5). xs. rewrite wrap_I32_id by lia.
+  rewrite Efix. xs.
+  rewrite (free_ok m6 (S L) _ Hc6) by (unfold chrs, uc_chop; cbn [uc_chop_f map]; discriminate). xs.
+  eexists. split; [reflexivity|]. split.
+  - apply (mem_ext_trans m m6 _ [g] [S L] [g]); [|apply mem_ext_upd; left; reflexivity|apply incl_refl|].
+    + apply (mem_ext_trans m m5 m6 [g] [g] [g] E05 X56); [apply incl_refl|intros x Hxg _; exact Hxg].
+    + intros x [<-|[]] Hl. exfalso. fold L in Hl. lia.
+  - unfold int_arr_at. rewrite mem_upd_other by (try lia; destruct X56, X35, X23; lia). exact Ho6.
+Qed.
